@@ -17,7 +17,8 @@ BYTE_ALPHABETS = [
     list(range(256)),
     [0, 3, 6, 9, 12, 5, 7, 128, 255],
 ]
-STR_ALPHABET = "aZ~ ÿ€Ÿé?!y\x00Ā\U0001F600þ"
+# includes C1 controls (U+0081 U+0085 U+009F): latin-1 has them, windows-1252 does not
+STR_ALPHABET = "aZ~ ÿ€Ÿé?!y\x00Ā\U0001F600þ\x81\x85\x9f\xa0"
 
 
 class Native:
